@@ -1,6 +1,6 @@
 """C15 — client transports deliver each answer to its own request, exactly once
 (spec/ClientStream.tla, spec/ClientDgram.tla, spec/ClientDgramPar.tla, spec/ClientCompose.tla,
-spec/ClientConfig.tla, spec/ClientMsg.tla)."""
+spec/MC_ClientMulti.tla, spec/Trace_ClientMulti.tla, spec/ClientConfig.tla, spec/ClientMsg.tla)."""
 import json
 import os
 
@@ -22,9 +22,9 @@ DEV = "D_stream_response_timeout_ignored"
 
 META = {
     "category": "model_checking",
-    "text": "TLC explores the stream transport (one action per select! arm of Transport::run, the slot table with ID = slot index, timers, an adversarial peer that may send any message of an alphabet at any time, end the stream or stop reading) and the datagram transport (attempts, random IDs, receive loop, retries) and checks OwnAnswer, AtMostOnce, NoCross, SlotTableSound, NothingLost, the timer/retry budget and completion (liveness under fairness of the task and the clock). Every transition of the explored macro-step state graphs is replayed into the real stream::Connection/Transport and dgram::Connection over in-memory sockets on a paused clock, comparing requests written and the outcome of every get_response() after every step; recorded runs with 50 concurrent requests against a seeded hostile peer are validated by TLC against the specification with the invariants evaluated at every step. The budgets are the configured ones: ClientConfig.tla models every public configuration setter of dgram, stream, multi_stream, dgram_stream, redundant and load_balancer (documented ranges and defaults, routes new / default / from / from_parts / ..._mut / set_... / Connection::new) as configuration scripts; the model constants of the transports are what a script leaves in force, TLC checks the operational definitions against the declarative reading (asked for, capped to the range; never asked: the default) and generates, per setter, values at / just inside / just outside both ends of its range, which are replayed as getter sequences on the real objects and as loss scenarios on the running transports (dgram: 1 + max_retries datagrams read_timeout apart, OPT payload size on the wire, receive buffer offered to the socket, max_parallel sockets open at once under bursts of 1002 requests; stream: response / streaming / idle timeouts running out on clocks of 10 s, 70 s and 600 s ticks; multi_stream and dgram_stream: completion no later than the configured response timeout, the stream connections underneath giving up / going idle after the stream::Config part; load_balancer: ConnConfig scripts in the recorded runs).",
-    "note": "Trusted: TLC, the transcription in ClientStream.tla/ClientDgram.tla, the harness (in-memory sockets, interposed CLOCK_MONOTONIC so that std::time::Instant follows the paused tokio clock). Errors are compared as a class, not by value. ClientCompose.tla models multi_stream (connect phase, close, back-off, re-issue; completion no later than the response timeout after submission) and dgram_stream (TCP iff TC, the truncated answer is never delivered) over abstract stream connections; its macro-step graph is checked by TLC and replayed into the real multi_stream / dgram_stream over a mock connector. The redundant / load_balancer leg (upstream order and probe timer left open, burst limits exact) is model-checked and bound by validating recorded runs of the real balancers over scripted upstreams (0..3 upstreams, all result kinds, burst limits; a panicking request future is an observation no rule accepts). Zone transfers on the stream transport (SubmitMulti, check_stream transcribed, re-insert at the same ID) are modelled and bound (replay and recorded traces). The peer's question is a triple (name, type, class) varied one component at a time, plus letter case and QDCOUNT 0/2. Not covered: response-time estimation / fairness of the balancers, two multi_stream requests whose back-offs end in the same tick (order is random in the code), how many octets a stalled write has taken (stalled and short writes themselves are covered: a second request arriving while the first is half written), more than 65535/2 outstanding requests, real sockets/TLS. demux_reply restarts the response timer for every message, also for unknown IDs: bounded in the model (MaxFrames); see report. D_stream_response_timeout_ignored (the configured response timeout was never in force for ordinary requests) is fixed in the tree; the deviation model stays as documentation. Configuration: a response timeout that is a whole number of ticks is avoided (at elapsed = timeout exactly the run loop sleeps for zero time until the clock moves, which the frozen clock never does); not bound to a running transport: slow_rt_factor (getter only), the upper end of burst_interval (361 ticks; getter only), recv_size beyond the buffer offered (what a longer datagram then looks like is not judged).",
-    "technique": "TLA+ specs (ClientStream.tla, ClientDgram.tla, ClientDgramPar.tla, ClientCompose.tla, ClientConfig.tla) + TLC exhaustive (safety, liveness); spec->impl behaviour replay on a virtual clock; impl->spec trace validation",
+    "text": "TLC explores the stream transport (one action per select! arm of Transport::run, the slot table with ID = slot index, timers, an adversarial peer that may send any message of an alphabet at any time, end the stream or stop reading) and the datagram transport (attempts, random IDs, receive loop, retries) and checks OwnAnswer, AtMostOnce, NoCross, SlotTableSound, NothingLost, the timer/retry budget and completion (liveness under fairness of the task and the clock). Every transition of the explored macro-step state graphs is replayed into the real stream::Connection/Transport and dgram::Connection over in-memory sockets on a paused clock, comparing requests written and the outcome of every get_response() after every step; recorded runs with 50 concurrent requests against a seeded hostile peer are validated by TLC against the specification with the invariants evaluated at every step. The budgets are the configured ones: ClientConfig.tla models every public configuration setter of dgram, stream, multi_stream, dgram_stream, redundant and load_balancer (documented ranges and defaults, routes new / default / from / from_parts / ..._mut / set_... / Connection::new) as configuration scripts; the model constants of the transports are what a script leaves in force, TLC checks the operational definitions against the declarative reading (asked for, capped to the range; never asked: the default) and generates, per setter, values at / just inside / just outside both ends of its range, which are replayed as getter sequences on the real objects and as loss scenarios on the running transports (dgram: 1 + max_retries datagrams read_timeout apart, OPT payload size on the wire, receive buffer offered to the socket, max_parallel sockets open at once under bursts of 1002 requests; stream: response / streaming / idle timeouts running out on clocks of 10 s, 70 s and 600 s ticks; multi_stream and dgram_stream: completion no later than the configured response timeout, the stream connections underneath giving up / going idle after the stream::Config part; load_balancer: ConnConfig scripts in the recorded runs). Completion TIME under connection-establishment faults: on a clock finer than multi_stream's back-off (MC_ClientMulti.tla over ClientCompose's MFineTickSet) the pause of Request::get_response in state Delay and the error state of Transport::run last a nondeterministic time within their documented range (below 2^n s, at most 60 s); TLC checks that every request is completed exactly once and no later than its response timeout after submission whatever the pauses are, and validates recorded runs of the real multi_stream over a connector whose connect() fails on demand (refused, accepted and closed, answered, wrong answer; repeated; ticks of 250 ms and 4 s; response timeouts of 1 ms ... 100 s and the default, below / about / above the back-offs) against it (Trace_ClientMulti.tla), the deadline evaluated in every state.",
+    "note": "Trusted: TLC, the transcription in ClientStream.tla/ClientDgram.tla, the harness (in-memory sockets, interposed CLOCK_MONOTONIC so that std::time::Instant follows the paused tokio clock). Errors are compared as a class, not by value. ClientCompose.tla models multi_stream (connect phase, close, back-off, re-issue; completion no later than the response timeout after submission) and dgram_stream (TCP iff TC, the truncated answer is never delivered) over abstract stream connections; its macro-step graph is checked by TLC and replayed into the real multi_stream / dgram_stream over a mock connector. The redundant / load_balancer leg (upstream order and probe timer left open, burst limits exact) is model-checked and bound by validating recorded runs of the real balancers over scripted upstreams (0..3 upstreams, all result kinds, burst limits; a panicking request future is an observation no rule accepts). Zone transfers on the stream transport (SubmitMulti, check_stream transcribed, re-insert at the same ID) are modelled and bound (replay and recorded traces). The peer's question is a triple (name, type, class) varied one component at a time, plus letter case and QDCOUNT 0/2. Fine clock (Trace_ClientMulti): back-off and error-state durations are hidden choices of the specification within [one tick, ceil(2^n s / tick)]; a pause of no time at all (random value below 1 us) is not modelled; the 250 ms runs have one request per scenario (hidden choices of two requests multiply), the 4 s runs up to two; connection faults there are connect refused and EOF from the peer (write errors / stalled peers are covered on the stream transport itself). Not covered: response-time estimation / fairness of the balancers, two multi_stream requests whose back-offs end in the same tick (order is random in the code), how many octets a stalled write has taken (stalled and short writes themselves are covered: a second request arriving while the first is half written), more than 65535/2 outstanding requests, real sockets/TLS. demux_reply restarts the response timer for every message, also for unknown IDs: bounded in the model (MaxFrames); see report. D_stream_response_timeout_ignored (the configured response timeout was never in force for ordinary requests) is fixed in the tree; the deviation model stays as documentation. Configuration: a response timeout that is a whole number of ticks is avoided (at elapsed = timeout exactly the run loop sleeps for zero time until the clock moves, which the frozen clock never does); not bound to a running transport: slow_rt_factor (getter only), the upper end of burst_interval (361 ticks; getter only), recv_size beyond the buffer offered (what a longer datagram then looks like is not judged).",
+    "technique": "TLA+ specs (ClientStream.tla, ClientDgram.tla, ClientDgramPar.tla, ClientCompose.tla, MC_ClientMulti.tla, Trace_ClientMulti.tla, ClientConfig.tla) + TLC exhaustive (safety, liveness); spec->impl behaviour replay on a virtual clock; impl->spec trace validation",
     "design_ref": "DESIGN.md §4 C15",
 }
 
@@ -453,6 +453,70 @@ def _config(ctx, thorough):
         raise vlib.ToolError("vacuity: routes missing among the composite configurations: %s" % sorted(routes))
 
 
+def _multi_fine(ctx, thorough):
+    """multi_stream under connection-establishment faults on a fine clock:
+    the back-off (Request::get_response, state Delay) and the error state of
+    Transport::run last a nondeterministic time within their documented
+    range (ClientCompose: MFineTickSet); TLC checks the deadline on the
+    model, then validates recorded runs of the real multi_stream over a
+    connector that fails on demand (ticks of 250 ms and of 4 s: response
+    timeouts below, about and above the back-offs of 2 s ... 60 s)."""
+    mc = ctx.tlc("MC_ClientMulti", "MC_ClientMulti_thorough" if thorough else "MC_ClientMulti",
+                 workers=8, label="mc-multi-fine", timeout=3000)
+    ctx.require_ok(mc, "MC_ClientMulti")
+    ctx.require_actions(mc, ["FTickQuiet", "FTickWake", "FTickTimeout"])
+    nscen = 300 if thorough else 120
+    for i, (tickms, maxreq) in enumerate([(250, 1), (4000, 2)] * (2 if thorough else 1)):
+        tr = os.path.join(ctx.work, "multi-fine-%d.ndjson" % i)
+        # (two requests per scenario: the hidden choices multiply, fewer scenarios)
+        rc, out, err, _ = ctx.run_bin("record_client", ["multi", tr, str(ctx.seed * 100 + 70 + i),
+                                                        str(nscen if maxreq == 1 else nscen * 6 // 10),
+                                                        str(tickms), str(maxreq)])
+        if rc != 0:
+            raise vlib.ToolError("record_client multi failed: " + (err or out)[-500:])
+        info = json.loads(out.strip().splitlines()[-1])
+        cfg = "Trace_ClientMulti_%d" % tickms
+        ok, res, rej = ctx.validate_trace("Trace_ClientMulti", cfg, tr, label="multi-fine-trace-%d" % i)
+        ctx.traces += 1
+        if not ok:
+            ctx.violation("recorded multi_stream run under connection failures is not a behaviour of "
+                          "ClientCompose.tla (completion no later than the response timeout, back-off within "
+                          "its range)", rej if rej is not None else {"violated": res.violated, "trace": tr})
+            continue
+        # vacuity: the response timeout ran out during a back-off (for several
+        # configured timeouts), back-offs ended and were followed by another
+        # connect(), requests were answered after failures
+        if info["timeout_in_backoff"] < 20 or len(info["timeout_in_backoff_rts"]) < 5 \
+                or info["reconnect_after_backoff"] < 20 or info["ok_after_failure"] < 3 or info["hang"]:
+            raise vlib.ToolError("vacuity: recorded multi_stream run too poor: %s" % info)
+        if i == 0:
+            # binding self-test: a completion one tick after the deadline must be rejected
+            bad = os.path.join(ctx.work, "multi-fine-bad.ndjson")
+            lines = open(tr).read().splitlines()
+            rt_ticks, hit = None, False
+            for j, l in enumerate(lines):
+                o = json.loads(l)
+                if o["ev"] == "init":
+                    rt_ticks = max(1, -(-o["eff"]["rt"] // tickms))
+                    continue
+                d = o["obs"]["done"][0]
+                if not hit and o["ev"] == "tick" and d and not d[0]["ok"] and d[0]["t"] == rt_ticks \
+                        and not json.loads(lines[j - 1]).get("obs", {"done": [[1]]})["done"][0] \
+                        and j + 1 < len(lines) and json.loads(lines[j + 1])["ev"] == "init":
+                    # the request is still pending at this tick and completed by one more
+                    late = json.loads(l)
+                    late["obs"]["done"][0][0]["t"] += 1
+                    o["obs"]["done"][0] = []
+                    lines[j] = json.dumps(o) + "\n" + json.dumps(late)
+                    hit = True
+            if not hit:
+                raise vlib.ToolError("no completion at the deadline in the recorded run")
+            open(bad, "w").write("\n".join(lines) + "\n")
+            ok2, _, _ = ctx.validate_trace("Trace_ClientMulti", cfg, bad, label="multi-fine-trace-selftest")
+            ctx.selftest("a request completed one tick after its response timeout is rejected by Trace_ClientMulti",
+                         not ok2)
+
+
 BALANCE_ACTIONS = ["RequestSubmit", "UpstreamAsked", "UpstreamResult", "RequestDone", "ClockTick"]
 
 
@@ -584,6 +648,7 @@ def run(ctx):
     _dgram_model(ctx, thorough)
     _replay(ctx, thorough)
     _compose(ctx, thorough)
+    _multi_fine(ctx, thorough)
     _config(ctx, thorough)
     _balance(ctx, thorough)
     _traces(ctx, thorough)
@@ -594,6 +659,7 @@ def run(ctx):
     ctx.assume("errors are compared as a class (ok / error), not by value")
     ctx.assume("dgram: successive attempts draw different random IDs (a case in which they collide is re-run)")
     ctx.assume("multi_stream back-off (random, below 2^n s, at most 60 s) is shorter than one tick (100 s for multi_stream cases; 10 s and at most three failures for dgram_stream cases), so a Delay ends with the next tick; on the 10 ms clock of the connection-failure cases (ticks far shorter than the back-off) a state in which a request is in its back-off with more than one tick to go is not expanded: when the back-off ends is then not determined, that the request completes on time is")
+    ctx.assume("fine clock (MC_ClientMulti / Trace_ClientMulti): time moves in ticks only, so every pause starts at a tick boundary; a pause of d < B ends with tick ceil(d / tick) <= ceil(B / tick); retry_time never yields exactly zero")
     ctx.assume("balancers: every upstream that is asked hands back one result (assume/guarantee); which usable upstream is tried next and after how many ticks the probe timer fires is left open")
     ctx.assume("no caller drops its request future before it resolves")
     ctx.assume("zone transfers: later messages of a transfer are matched by ID only (check_stream checks neither QR nor the question after the first SOA); the spec states the same")
